@@ -8,9 +8,10 @@ use vstd::string::StringSliceAdditionalSpecFns;
 verus! {
 
 pub open spec fn has_prefix(b: Seq<u8>, p: Seq<u8>) -> bool { b.len() >= p.len() && b.subrange(0, p.len() as int) == p }
-/// a pathspec selects the file itself, everything below it when it ends in '/', and everything below `<pathspec>/`
+/// a pathspec selects the file itself, everything below it when it ends in '/', and everything below `<pathspec>/`; `.` names the
+/// whole work tree
 pub open spec fn selects(p: Seq<u8>, f: Seq<u8>) -> bool {
-    f == p || (p.len() > 0 && p.last() == 0x2f && has_prefix(f, p)) || has_prefix(f, p.push(0x2fu8))
+    p == seq![0x2eu8] || f == p || (p.len() > 0 && p.last() == 0x2f && has_prefix(f, p)) || has_prefix(f, p.push(0x2fu8))
 }
 pub open spec fn spec_matches(f: Seq<u8>, ps: Seq<String>) -> bool { exists|i: int| 0 <= i < ps.len() && selects(vstd::utf8::encode_utf8((#[trigger] ps[i])@), f) }
 /// rule O1: the whole `.iter().any(..)` expression, with the documented meaning of Iterator::any and the str predicates
@@ -18,7 +19,7 @@ pub open spec fn spec_matches(f: Seq<u8>, ps: Seq<String>) -> bool { exists|i: i
 fn opq_any_pathspec_matches(file: &str, pathspecs: &[String]) -> (r: bool)
     ensures r == spec_matches(file.spec_bytes(), pathspecs@),
 { unimplemented!() }
-//#item file=src/commands/hooks/checkout_hooks.rs kind=fn name=matches_any_pathspec opaque='[{"expr": "pathspecs.iter().any(|p| { file == p || (p.ends_with(\u0027/\u0027) && file.starts_with(p)) || file.starts_with(&format!(\"{}/\", p)) })", "call": "opq_any_pathspec_matches(file, pathspecs)"}]'
+//#item file=src/commands/hooks/checkout_hooks.rs kind=fn name=matches_any_pathspec opaque='[{"expr": "pathspecs.iter().any(|p| { // `.` names the whole work tree (`git checkout -- .`)\n        p == \".\" || file == p || (p.ends_with(\u0027/\u0027) && file.starts_with(p)) || file.starts_with(&format!(\"{}/\", p)) })", "call": "opq_any_pathspec_matches(file, pathspecs)"}]'
 fn matches_any_pathspec(file: &str, pathspecs: &[String]) -> (r_: bool)
 //@     ensures r_ == spec_matches(file.spec_bytes(), pathspecs@),
 {
